@@ -243,9 +243,9 @@ theorem rXYZ_idem : rXYZ.Idem := by
 /-- the hypotheses of `C13_get_set` are satisfiable with a negated alias and a bound pair:
     bounds `(-3, +inf)` stored through `y` read `(-inf, 3)` through `x` and `(-3, +inf)` through `z` -/
 example :
-    let pr : Val := .tup [.num (XVal.fin (-3)), .num XVal.pinf]
+    let pr : Val := .tup [some (.num (XVal.fin (-3))), some (.num XVal.pinf)]
     ∃ a', (ADict.empty true : ADict Val).set rXYZ "y" pr = .ok a'
-      ∧ a'.get rXYZ "x" = .ok (.tup [.num XVal.ninf, .num (XVal.fin 3)])
+      ∧ a'.get rXYZ "x" = .ok (.tup [some (.num XVal.ninf), some (.num (XVal.fin 3))])
       ∧ a'.get rXYZ "z" = .ok pr ∧ a'.keys = ["x"] := by
   refine ⟨_, rfl, ?_, ?_, ?_⟩ <;> decide
 
@@ -277,6 +277,36 @@ theorem C13_signed_nominals_legacy_wrong :
       ∧ (simXY true).getVar rXYZ "x" = some 5
       ∧ ((simXY true).setVar rXYZ "y" 3).bind (fun s => s.getVar rXYZ "x") = some 3 := by
   refine ⟨?_, ?_, ?_, ?_⟩ <;> decide +kernel
+
+/-! ## pairs with a missing (`None`) side (finding F56) -/
+
+/-- **A missing side stays missing under a negated alias**: the pair `(None, 5)` stored through
+    `y = -x` reads `(-5, None)` through `x`, `(None, 5)` through `y` and `z`; `(None, None)` reads
+    `(None, None)` through every name.  (`C13_get_set`, `C13_ops_refine_map`, `C13_alias_invariant`
+    … hold for these pairs too: `Val` with optional tuple sides is a `LawfulNegVal`.) -/
+theorem C13_none_side_under_negated_alias :
+    let five : Atom := .num (XVal.fin 5)
+    (∃ a', (ADict.empty true : ADict Val).set rXYZ "y" (.tup [none, some five]) = .ok a'
+      ∧ a'.get rXYZ "x" = .ok (.tup [some (.num (XVal.fin (-5))), none])
+      ∧ a'.get rXYZ "y" = .ok (.tup [none, some five])
+      ∧ a'.get rXYZ "z" = .ok (.tup [none, some five]))
+    ∧ (∃ a', (ADict.empty true : ADict Val).set rXYZ "y" (.tup [none, none]) = .ok a'
+      ∧ a'.get rXYZ "x" = .ok (.tup [none, none]) ∧ a'.get rXYZ "z" = .ok (.tup [none, none])) := by
+  refine ⟨⟨_, rfl, ?_, ?_, ?_⟩, ⟨_, rfl, ?_, ?_⟩⟩ <;> decide
+
+/-- **F56, machine-checked**: the value map of the code before the repair (`(-val[1], -val[0])`)
+    raises (`none` = `TypeError: bad operand type for unary -: 'NoneType'`) exactly on the pairs
+    with a missing side, where the repaired map gives the swapped pair with the side still
+    missing; on pairs with both sides present the two agree. -/
+theorem C13_none_side_legacy_raises :
+    Val.negLegacy (.tup [none, some (.num (XVal.fin 5))]) = none
+      ∧ Val.negLegacy (.tup [some (.num (XVal.fin 5)), none]) = none
+      ∧ Val.negLegacy (.tup [none, none]) = none
+      ∧ Val.neg (.tup [none, some (.num (XVal.fin 5))]) = .tup [some (.num (XVal.fin (-5))), none]
+      ∧ (∀ x y : Atom, Val.negLegacy (.tup [some x, some y]) = some (Val.neg (.tup [some x, some y]))) := by
+  refine ⟨by decide, by decide, by decide, by decide, ?_⟩
+  intro x y
+  rfl
 
 /-! ## data read from files under alias names (IO mixins) -/
 
